@@ -1,4 +1,5 @@
 import ActixModel.Proofs.DispBounds
+import ActixModel.Proofs.DispBoundsW
 /-
 C05 — HTTP/1 per-connection memory is bounded by configuration, not by the peer.
 
@@ -39,6 +40,16 @@ theorem C05_read_guard (cfg : Cfg) (s s' : S) (k : Nat) (h : step cfg s (.read k
 
 example : ∃ s', step { wbs := 1, readCap := 8192, minHead := 14 } init (.read 8192) = some s' :=
   ⟨_, rfl⟩
+
+/-- the bound is attained (it is the maximum, not merely an upper estimate): 127 reads of 1024
+bytes and one of 1023 leave the buffer one byte below the limit, so one more full read is taken -/
+theorem witness_readbuf_bound_tight :
+    ∃ s, run { wbs := 1, readCap := 1024, minHead := 14 } init
+        (List.replicate 127 (.read 1024) ++ [.read 1023, .read 1024]) = some s ∧
+      s.rb = h1MaxBufferSize - 1 + 1024 := by
+  refine ⟨{ init with rb := 132095 }, ?_, ?_⟩
+  · decide
+  · decide
 
 /-- **C05_partial_head_refused**: whenever the decoder reports a partial head while the buffer
 holds `MAX_BUFFER_SIZE` bytes or more, the only thing the machine can do with that answer is
@@ -248,6 +259,22 @@ theorem witness_payload_exceeds_limit :
                        inDecode := true }, ⟨40960, false, false⟩, ?_, rfl, rfl, by decide⟩
   decide
 
+/-- the payload bound is attained: the channel is one byte below its limit when a full read
+buffer (`MAX_BUFFER_SIZE - 1 + readCap` bytes of body) is decoded into it -/
+theorem witness_payload_bound_tight :
+    ∃ s c, run { wbs := 1, readCap := 1024, minHead := 14 } init
+        ([.read 60, .enter, .dec (.item 60 true), .dec (.needMore 0)] ++
+         List.replicate 31 (.read 1024) ++ [.read 1023, .enter, .dec (.chunk 0 32767),
+           .dec (.needMore 0)] ++
+         List.replicate 127 (.read 1024) ++ [.read 1023, .read 1024, .enter,
+           .dec (.chunk 0 132095)]) = some s ∧
+      s.pl = some c ∧
+      c.len = payloadMaxBufferSize - 1 + (h1MaxBufferSize - 1 + 1024) := by
+  refine ⟨{ init with st := .svc, pl := some ⟨164862, false, false⟩, codecPl := true,
+                       inDecode := true }, ⟨164862, false, false⟩, ?_, rfl, ?_⟩
+  · decide +kernel
+  · decide
+
 /-! ### 3. queued pipelined requests -/
 
 /-- **C05_queue_bound**: at most
@@ -310,6 +337,55 @@ theorem witness_queue_exceeds_max_pipelined :
         ([.read 1024, .enter] ++ List.replicate 19 (.dec (.item 18 false))) = some s ∧
       h1MaxPipelined < s.q := by
   refine ⟨{ init with rb := 682, q := 18, st := .svc, inDecode := true }, ?_, ?_⟩
+  · decide
+  · decide
+
+/-! ### 3b. everything taken from the socket and not yet handed to a handler -/
+
+/-- **C05_total_readahead_bound**: in the weighted machine (`Model/DispBoundsW.lean`) the input
+bytes held anywhere ahead of the handlers — read buffer, heads and buffered bodies of all queued
+pipelined requests, body channel of the request in service — never exceed
+
+  `R + (15 · (R + P) + R) + P`,   `R = MAX_BUFFER_SIZE - 1 + readCap`, `P = 32 768 - 1 + R`
+
+(15 full requests queued when the decode loop was last entered, one read buffer decoded by that
+loop, one unparsed read buffer, one full channel): a constant of the configuration, about 5.1 MB
+for `readCap = HW_BUFFER_SIZE` — not the 160 kB the two `MAX_BUFFER_SIZE` constants suggest. -/
+theorem C05_total_readahead_bound (cfg : Cfg) (evs : List Ev) (x : SW)
+    (h : runW cfg initW evs = some x) : heldInput x ≤ heldMax cfg := by
+  have hi := invW_run evs initW x (invW_init cfg) h
+  have hrb := hi.base.rb
+  have hcur := hi.curb
+  have htail := hi.tail
+  have hq : queuedBytes x.ws ≤ (h1MaxPipelined - 1) * msgMax cfg + tailSum (h1MaxPipelined - 1) x.ws := by
+    apply queued_le
+    intro p hp
+    have := hi.all p hp
+    simp only [weight, msgMax]
+    omega
+  have : tailSum (h1MaxPipelined - 1) x.ws ≤ readBufMax cfg := by
+    have : 0 ≤ (if x.s.inDecode then x.s.rb else 0) := Nat.zero_le _
+    omega
+  simp only [heldInput, heldMax]
+  omega
+
+/-- every run of the weighted machine is a run of the plain one, so all theorems above apply to
+its `s` component -/
+theorem C05_weighted_refines (cfg : Cfg) (evs : List Ev) (x : SW)
+    (h : runW cfg initW evs = some x) : run cfg init evs = some x.s :=
+  runW_run evs initW x h
+
+/-- the number for HW-sized reads -/
+example : heldMax { wbs := 32768, readCap := h1HwBufferSize, minHead := 14 } = 5119951 := by decide
+
+/-- a non-trivial weighted run: one request in service, two queued (the second with 100 buffered
+body bytes), 7 unparsed bytes -/
+example : ∃ x, runW { wbs := 1, readCap := 1024, minHead := 14 } initW
+      [.read 200, .enter, .dec (.item 18 false), .dec (.item 20 false), .dec (.item 55 true),
+       .dec (.chunk 0 100), .dec (.needMore 0)] = some x ∧ heldInput x = 182 := by
+  refine ⟨{ s := { init with rb := 7, q := 2, st := .svc, pl := some ⟨100, true, false⟩,
+                               codecPl := true },
+            ws := [(20, 0), (55, 100)], cur := 0 }, ?_, ?_⟩
   · decide
   · decide
 
